@@ -129,6 +129,7 @@ structure SeqAcc where
   openConns : List String := []     -- from events only (C14 oracle)
   closedConns : List String := []
   branches : List String := []
+  genChunks : List Bytes := []     -- chunk ids the library generated for helper-built messages so far in this sequence
   authed : List String := []       -- connections on which the real client's Handshake returned nil (observation only)
   dirty : List Nat := []           -- connections whose peer sent something other than one conforming ack per response
 
@@ -270,9 +271,15 @@ def opSEQ (args obs : List String) : Option DecOut := do
             if res == "ok" then helperOracle hname opT ack t0 wire (kvGet "gunzip" xs) (kvGet "gzok" xs)
             else []
           | _ => if res == "ok" || !evs.isEmpty then [s!"C06 {hname} outside a live authenticated session"] else []
+        -- ids generated for different messages never coincide: an ack for one would be an ack for the other
+        let hid : Bytes := match parse wire with | some (o, _) => chunkOfObj o | none => []
+        let fDup := if ack && !hid.isEmpty && acc.genChunks.contains hid then
+            [s!"C12 {hname}: the generated chunk id {toHex hid} was already given to an earlier message of this client",
+             s!"C08 two sends share the chunk id {toHex hid}: the ack for one is accepted for the other"] else []
+        let genChunks' := if ack && !hid.isEmpty then hid :: acc.genChunks else acc.genChunks
         -- keep the model's log in step with what happened (the helper's bytes are data written in transport phase)
         let st' := { sBefore with log := sBefore.log }
-        { acc with st := st', fails := acc.fails ++ f10 ++ f06a ++ fHang ++ f14 ++ okWire ++ fUnauth, authed := authed', openConns := opens, closedConns := closes,
+        { acc with st := st', fails := acc.fails ++ f10 ++ f06a ++ fHang ++ f14 ++ okWire ++ fUnauth ++ fDup, authed := authed', genChunks := genChunks', openConns := opens, closedConns := closes,
                    branches := acc.branches ++ [s!"hlp.{res}"] }
       | _, none => { acc with corr := acc.corr ++ [s!"unparsable op {p.1}"], fails := acc.fails ++ f10 ++ f06a ++ f14 }
       | _, some op =>
@@ -457,5 +464,7 @@ def opHSH (args obs : List String) : Option DecOut := do
        [s!"C05 ValidatePingDigest accepts a digest that is not the formula's ({tamper})"] else []) ++
     (if !same && wres == "ok" && vpong.digest != H (salt2 ++ vpong.hostname ++ nonce2 ++ key2) then
        [s!"C05 ValidatePongDigest accepts a digest that is not the formula's ({tamper})"] else [])
+  let fails := fails ++ (if obs.contains "callermem=modified" then
+      ["C07 a handshake helper wrote into the caller's salt / nonce / key buffer (beyond the slice it was given)"] else [])
   pure { corr := if corr.isEmpty then none else some (" || ".intercalate corr), fails := fails, branch := s!"hsh.{tamper}" }
 end FV.Driver
